@@ -216,15 +216,28 @@ func (in inputs) natDigest() uint64 {
 
 type killed struct{ what string }
 
-type rlog struct{ order []string }
+// rlog records every []string a Debug call is given: the last one that is a permutation of the selected closure is
+// the run order (independent of the wording of the log line)
+type rlog struct{ lists [][]string }
 
 func (*rlog) Sync() error { return nil }
-func (l *rlog) Debug(format string, args ...any) {
-	if strings.HasPrefix(format, "Calculated topological sort") && len(args) > 0 {
-		if names, ok := args[0].([]string); ok {
-			l.order = append([]string{}, names...)
+func (l *rlog) Debug(_ string, args ...any) {
+	for _, a := range args {
+		if names, ok := a.([]string); ok {
+			l.lists = append(l.lists, append([]string{}, names...))
 		}
 	}
+}
+
+func (l *rlog) order(sel []string) []string {
+	for i := len(l.lists) - 1; i >= 0; i-- {
+		c := append([]string{}, l.lists[i]...)
+		sort.Strings(c)
+		if strings.Join(c, ",") == strings.Join(sel, ",") {
+			return l.lists[i]
+		}
+	}
+	return nil
 }
 
 type call struct {
@@ -237,11 +250,13 @@ type runner struct {
 	calls  []call
 	killAt int // 1-based call index at which the process is killed; 0 = never
 	n      int
+	killed string // the task whose command was running when the process was killed
 }
 
 func (r *runner) Run(cmd string, _ iostream.IOStream, task string, _ []string) (shell.Result, error) {
 	r.n++
 	if r.n == r.killAt {
+		r.killed = task
 		panic(killed{fmt.Sprintf("K%d", r.n)})
 	}
 	st := 0
@@ -502,7 +517,7 @@ func workCase(c string) string {
 			}
 			sERR = append(sERR, errClass)
 			if order == nil {
-				order = lg.order
+				order = lg.order(sel)
 			}
 			if order == nil {
 				// not observable (killed before the sort was logged): Runner calls first, then the rest of the closure
@@ -512,6 +527,10 @@ func workCase(c string) string {
 						order = append(order, cl.task)
 						inOrd[cl.task] = true
 					}
+				}
+				if rn.killed != "" && !inOrd[rn.killed] {
+					order = append(order, rn.killed)
+					inOrd[rn.killed] = true
 				}
 				for _, n := range sel {
 					if !inOrd[n] {
